@@ -12,6 +12,11 @@ from . import term as tm
 from .term import T
 
 PROVED, REFUTED, UNKNOWN = "PROVED", "REFUTED", "UNKNOWN"
+import os as _os
+
+
+def thorough():
+    return _os.environ.get("PYVC_TIER", "quick") == "thorough"
 
 
 class Verdict:
@@ -203,6 +208,8 @@ def prove_equal_cas(lhs, rhs, box, hyp=None, positive=None, seed=0, npoints=12, 
 
     t0 = time.time()
     rng = random.Random(seed)
+    if thorough():
+        npoints = npoints * 4
     d = tm.sub(lhs, rhs)
     # numeric pass first: cheap, and gives the witness
     funcs = default_app_interp(tm.add(lhs, rhs), seed)
@@ -446,7 +453,23 @@ def prove_smt(goal, hyps=(), timeout_ms=10000, extra_z3=None, want=None, second_
     r = s.check()
     dt = time.time() - t0
     if r == z3.unsat:
-        return Verdict(PROVED, "SMT:z3-" + z3.get_version_string(), seconds=dt)
+        v = Verdict(PROVED, "SMT:z3-" + z3.get_version_string(), seconds=dt)
+        if thorough():
+            smt2 = s.to_smt2()
+            agree = []
+            for cmd in (["/usr/bin/z3", "-in", "-T:60"], ["/usr/bin/cvc5", "--lang=smt2", "--tlimit=60000", "-"]):
+                try:
+                    p = subprocess.run(cmd, input=smt2, capture_output=True, text=True, timeout=80)
+                    out = p.stdout.strip().splitlines()[0] if p.stdout.strip() else "no-answer"
+                except Exception as e:  # noqa: BLE001
+                    out = "no-answer"
+                if out == "sat":
+                    return Verdict("ERROR", "SMT", detail=f"solver disagreement: z3 {z3.get_version_string()} says unsat, {cmd[0]} says sat", seconds=time.time() - t0)
+                agree.append(f"{cmd[0].split('/')[-1]}:{out}")
+            v.detail = "second opinions: " + ", ".join(agree)
+            v.stats = {"second_opinions": agree}
+            v.seconds = time.time() - t0
+        return v
     if r == z3.sat:
         m = s.model()
         wit = {name: _z3_value(z3, m, v) for name, v in ctx.vars.items()}
@@ -833,7 +856,147 @@ def _presample(t, ivbox, ivcuts, mode, hyp, n=300, seed=0):
 
 
 def prove_int(t, box, mode=">0", hyp=None, cuts=None, max_boxes=400000, min_width=1e-9, presplit=None, pool=None):
-    """t `mode` 0 on the whole box {name: (lo, hi)} (restricted to hyp).  cuts: {term: (lo, hi)}."""
+    """t `mode` 0 on the whole box {name: (lo, hi)} (restricted to hyp).  cuts: {term: (lo, hi)}.
+    thorough tier: a PROVED verdict is repeated with mpmath.iv (an independent interval implementation)."""
+    v = _prove_int(t, box, mode, hyp, cuts, max_boxes, min_width, presplit, pool)
+    if v.status == PROVED and thorough() and mode != "defined":
+        t1 = time.time()
+        ok, nb, why = _bb_mp(t, box, mode, hyp, cuts, max_boxes=max(20000, 3 * v.stats.get("boxes", 1)))
+        v.stats["mpmath_iv_boxes"] = nb
+        v.seconds += time.time() - t1
+        if ok is True:
+            v.detail += f"; re-proved with mpmath.iv in {nb} boxes"
+        elif ok is False:
+            return Verdict("ERROR", "INT", detail=f"interval implementations disagree: float B&B proved, mpmath.iv found {why}", seconds=v.seconds)
+        else:
+            v.detail += f"; mpmath.iv re-check inconclusive within its budget ({why})"
+    return v
+
+
+def _iv_mp_eval(t, box, cuts):
+    from mpmath import iv
+    memo = {}
+    for n in tm.postorder(t):
+        if n in cuts:
+            memo[n] = cuts[n]
+            continue
+        op = n.op
+        a = [memo[c] for c in tm.children(n)]
+        if op == "const":
+            f = tm.cval(n)
+            v = iv.mpf(f.numerator) / iv.mpf(f.denominator)
+        elif op == "bool":
+            v = TRI_T if n.args[0] else TRI_F
+        elif op == "var":
+            v = box[n.args[0]]
+        elif op == "toreal":
+            v = a[0]
+        elif op == "+":
+            v = a[0]
+            for y in a[1:]:
+                v = v + y
+        elif op == "*":
+            v = a[0]
+            for y in a[1:]:
+                v = v * y
+        elif op == "neg":
+            v = -a[0]
+        elif op == "/":
+            if a[1].a <= 0 <= a[1].b:
+                raise IvUndefined("division by an interval containing 0")
+            v = a[0] / a[1]
+        elif op == "ipow":
+            k = int(tm.cval(n.args[1]))
+            v = a[0] ** k if k >= 0 else 1 / (a[0] ** (-k))
+        elif op == "rpow":
+            if a[0].a <= 0:
+                if a[0].a == 0 and a[1].a > 0:
+                    hi = iv.exp(a[1] * iv.log(iv.mpf([max(a[0].b, iv.mpf("1e-300").a), a[0].b]))) if a[0].b > 0 else iv.mpf(0)
+                    v = iv.mpf([0, max(hi.b, 1)]) if a[0].b > 0 else iv.mpf(0)
+                else:
+                    raise IvUndefined("real power of an interval reaching 0 or below")
+            else:
+                v = iv.exp(a[1] * iv.log(a[0]))
+        elif op == "exp":
+            v = iv.exp(a[0])
+        elif op == "log":
+            if a[0].a <= 0:
+                raise IvUndefined("log of an interval reaching 0")
+            v = iv.log(a[0])
+        elif op == "sqrt":
+            if a[0].a < 0:
+                raise IvUndefined("sqrt of an interval reaching below 0")
+            v = iv.sqrt(a[0])
+        elif op == "abs":
+            v = abs(a[0])
+        elif op == "min":
+            v = iv.mpf([min(a[0].a, a[1].a), min(a[0].b, a[1].b)])
+        elif op == "max":
+            v = iv.mpf([max(a[0].a, a[1].a), max(a[0].b, a[1].b)])
+        elif op == "<":
+            v = TRI_T if a[0].b < a[1].a else (TRI_F if a[0].a >= a[1].b else TRI_U)
+        elif op == "<=":
+            v = TRI_T if a[0].b <= a[1].a else (TRI_F if a[0].a > a[1].b else TRI_U)
+        elif op == "and":
+            v = TRI_F if any(y == TRI_F for y in a) else (TRI_T if all(y == TRI_T for y in a) else TRI_U)
+        elif op == "or":
+            v = TRI_T if any(y == TRI_T for y in a) else (TRI_F if all(y == TRI_F for y in a) else TRI_U)
+        elif op == "not":
+            v = {TRI_T: TRI_F, TRI_F: TRI_T, TRI_U: TRI_U}[a[0]]
+        else:
+            raise NotImplementedError(f"mp ieval {op}")
+        memo[n] = v
+    return memo[t]
+
+
+def _bb_mp(t, box, mode, hyp, cuts, max_boxes):
+    from mpmath import iv
+    iv.dps = 30
+    ivbox = {k: iv.mpf([float(lo), float(hi)]) for k, (lo, hi) in box.items()}
+    ivcuts = {k: iv.mpf([float(lo), float(hi)]) for k, (lo, hi) in (cuts or {}).items()}
+    stack = [ivbox]
+    n = 0
+    try:
+        while stack:
+            b = stack.pop()
+            n += 1
+            if n > max_boxes:
+                return None, n, "budget"
+            if hyp is not None:
+                try:
+                    h = _iv_mp_eval(hyp, b, ivcuts)
+                except IvUndefined:
+                    h = TRI_U
+                if h == TRI_F:
+                    continue
+            ok = False
+            try:
+                r = _iv_mp_eval(t, b, ivcuts)
+                ok = (mode == ">0" and r.a > 0) or (mode == ">=0" and r.a >= 0) or (mode == "<0" and r.b < 0) or (mode == "<=0" and r.b <= 0)
+            except IvUndefined:
+                ok = False
+            if ok:
+                continue
+            key, best = None, -1.0
+            for k, v in b.items():
+                w = float(v.delta) / max(1e-300, max(abs(float(v.a)), abs(float(v.b)), 1e-12))
+                if float(v.delta) > 0 and w > best:
+                    best, key = w, k
+            if key is None or best < 1e-9:
+                return None, n, "stuck"
+            v = b[key]
+            m = (v.a + v.b) / 2
+            b1, b2 = dict(b), dict(b)
+            b1[key] = iv.mpf([v.a, m])
+            b2[key] = iv.mpf([m, v.b])
+            stack.append(b1)
+            stack.append(b2)
+    except NotImplementedError as e:
+        return None, n, str(e)
+    return True, n, ""
+
+
+def _prove_int(t, box, mode=">0", hyp=None, cuts=None, max_boxes=400000, min_width=1e-9, presplit=None, pool=None):
     t0 = time.time()
     ivbox = {k: Iv(float(lo), float(hi)) for k, (lo, hi) in box.items()}
     ivcuts = {k: Iv(float(lo), float(hi)) for k, (lo, hi) in (cuts or {}).items()}
